@@ -29,7 +29,8 @@ type c19query struct {
 	maxDist float64 // < 0: absent
 	filter  int
 	box     orb.Bound
-	useBuf  bool
+	useBuf  int       // 0: nil buffer; 1: an empty per-goroutine buffer; 2: the goroutine's previous result, stale pointers included
+	limits  []float64 // the distance limit as the caller's own slice (shared by all goroutines, which only read it)
 }
 
 var c19filters = []quadtree.FilterFunc{
@@ -39,11 +40,7 @@ var c19filters = []quadtree.FilterFunc{
 	func(p orb.Pointer) bool { return false }, // nothing qualifies: empty results
 }
 
-func c19run(t *quadtree.Quadtree, q *c19query, buf []orb.Pointer) []orb.Pointer {
-	var b []orb.Pointer
-	if q.useBuf {
-		b = buf
-	}
+func c19run(t *quadtree.Quadtree, q *c19query, b []orb.Pointer) []orb.Pointer {
 	switch q.kind {
 	case 0:
 		if r := t.Find(q.p); r != nil {
@@ -56,11 +53,17 @@ func c19run(t *quadtree.Quadtree, q *c19query, buf []orb.Pointer) []orb.Pointer 
 		}
 		return nil
 	case 2:
+		if q.limits != nil {
+			return t.KNearest(b, q.p, q.k, q.limits...)
+		}
 		if q.maxDist >= 0 {
 			return t.KNearest(b, q.p, q.k, q.maxDist)
 		}
 		return t.KNearest(b, q.p, q.k)
 	case 3:
+		if q.limits != nil {
+			return t.KNearestMatching(b, q.p, q.k, c19filters[q.filter], q.limits...)
+		}
 		if q.maxDist >= 0 {
 			return t.KNearestMatching(b, q.p, q.k, c19filters[q.filter], q.maxDist)
 		}
@@ -96,7 +99,7 @@ func init() {
 	h.Register(&h.Monitor{
 		ID:   "C19",
 		Race: true,
-		Rule: "configurations = (tree contents: empty / 1 / 7 / 1000 / 50000 points, uniform / clustered / all-duplicate / mid-line points, 0-90% of the points removed again) x (2..32 goroutines) x (GOMAXPROCS 1, 2, 16) x (yield probability inside the traversal 0, 1/64, 1/4); every goroutine replays a shuffled copy of one query list (Find, Matching, KNearest(Matching) with k in {1,3,16} with and without distance limit (limits from 0.001 to beyond the whole tree, +Inf), InBound(Matching); with and without per-goroutine buffers; some queries have empty results), each answer compared with the sequential answer. " +
+		Rule: "configurations = (tree contents: empty / 1 / 7 / 1000 / 50000 points, uniform / clustered / all-duplicate / mid-line points, 0-90% of the points removed again) x (2..32 goroutines) x (GOMAXPROCS 1, 2, 16) x (yield probability inside the traversal 0, 1/64, 1/4); every goroutine replays a shuffled copy of one query list (Find, Matching, KNearest(Matching) with k in {1,3,16} with and without distance limit (limits from 0.001 to beyond the whole tree, +Inf), InBound(Matching); with a nil buffer, an empty per-goroutine buffer or the goroutine's previous result as the buffer; distance limits as scalars or as one shared slice passed with ...; some queries have empty results), each answer compared with the sequential answer. " +
 			"non-trivial = configuration with at least one pair of queries from different goroutines overlapping in time (measured through the traversal hook's event counter); distinct = configuration index and repetition",
 		MinNontrivial: h.Fixed(8, 200),
 		Assumptions: []string{
@@ -196,7 +199,33 @@ func init() {
 						q.filter = r.Intn(len(c19filters))
 						w := []float64{0, 1, 30, 400}[r.Intn(4)]
 						q.box = orb.Bound{Min: orb.Point{q.p[0] - w, q.p[1] - w}, Max: orb.Point{q.p[0] + w, q.p[1] + w}}
-						q.useBuf = r.Bool()
+						q.useBuf = r.Intn(3)
+						if q.maxDist >= 0 && r.Bool() {
+							q.limits = []float64{q.maxDist}
+						}
+					}
+					limitsBefore := make([][]float64, nq)
+					for i := range qs {
+						limitsBefore[i] = append([]float64(nil), qs[i].limits...)
+					}
+					limitsIntact := func() bool {
+						for i := range qs {
+							for j, v := range qs[i].limits {
+								if math.Float64bits(v) != math.Float64bits(limitsBefore[i][j]) {
+									return false
+								}
+							}
+						}
+						return true
+					}
+					pick := func(q *c19query, empty, last []orb.Pointer) []orb.Pointer {
+						switch q.useBuf {
+						case 1:
+							return empty
+						case 2:
+							return last
+						}
+						return nil
 					}
 
 					idf := func(p orb.Pointer) uint64 { return uint64(p.(*qitem).id) + 1 }
@@ -210,9 +239,17 @@ func init() {
 						c.Fail("", "harness: the twin tree differs from the tree after the same operations", map[string]interface{}{"config": cfg})
 						return
 					}
+					var slast []orb.Pointer
 					for i := range qs {
-						res := c19run(twin, &qs[i], sbuf)
+						res := c19run(twin, &qs[i], pick(&qs[i], sbuf, slast))
 						seq[i] = append([]orb.Pointer(nil), res...)
+						if qs[i].useBuf != 0 && qs[i].kind >= 2 {
+							slast = res
+						}
+					}
+					if !limitsIntact() {
+						c.Fail("", "a sequential read-only query changed the caller's distance-limit slice", map[string]interface{}{"config": cfg})
+						return
 					}
 					c.Evals(nq)
 					if hs := twin.VerifHash(idf); hs != hash0 || twin.Bound() != b {
@@ -240,11 +277,15 @@ func init() {
 							go func(g int) {
 								defer wg.Done()
 								buf := make([]orb.Pointer, 0, 64)
+								var last []orb.Pointer
 								my := make([]c19span, 0, nq)
 								<-start
 								for _, qi := range perms[g] {
 									e0 := atomic.LoadUint64(&c19events)
-									res := c19run(tree, &qs[qi], buf)
+									res := c19run(tree, &qs[qi], pick(&qs[qi], buf, last))
+									if qs[qi].useBuf != 0 && qs[qi].kind >= 2 {
+										last = res
+									}
 									e1 := atomic.LoadUint64(&c19events)
 									my = append(my, c19span{g, e0, e1})
 									want := seq[qi]
@@ -299,6 +340,9 @@ func init() {
 					if mismatches > 0 {
 						fm, _ := firstMismatch.Load().(string)
 						c.Fail("", "a concurrent query returned something different from the same query run alone", map[string]interface{}{"config": cfg, "mismatches": mismatches, "first": fm})
+					}
+					if !limitsIntact() {
+						c.Fail("", "a concurrent read-only query changed the caller's distance-limit slice", map[string]interface{}{"config": cfg})
 					}
 					if hs := tree.VerifHash(idf); hs != hash0 || tree.Bound() != b {
 						c.Fail("", "the tree's structure, contents or bound changed during concurrent read-only queries", map[string]interface{}{"config": cfg, "bound_now": sv(tree.Bound())})
